@@ -27,6 +27,7 @@ import (
 type Cmd struct {
 	Op   string   `json:"op"`             // write | sync | pipe | delpipe | drop | round | observe | range | stop
 	Dest string   `json:"dest,omitempty"` // round: the tags of the pipe's destination partition
+	Skip int      `json:"skip,omitempty"` // round: source events the pipe is known to have passed over (it lost its position in a crash)
 	Cond string   `json:"cond,omitempty"` // pipe: the source condition (default: one that matches no partition)
 	N    int      `json:"n,omitempty"`    // round: the deadline of the wait in ms (default 40 s)
 	Tags string   `json:"tags,omitempty"`
@@ -35,7 +36,7 @@ type Cmd struct {
 	Lo   int64    `json:"lo,omitempty"`
 	Hi   int64    `json:"hi,omitempty"`
 	Know []string `json:"know,omitempty"` // observe: the tag lines to look at
-	Lim  *int64   `json:"lim,omitempty"`  // stop: file size limit set just before the shutdown sequence runs (crash injection)
+	Lim  *int64   `json:"lim,omitempty"`  // stop, write: file size limit set just before the shutdown sequence / the write runs (crash injection)
 }
 
 type PartView struct {
@@ -109,6 +110,9 @@ func serveMain(args []string) {
 			for i, t := range c.Ts {
 				evs[i] = &api.LogEvent{Timestamp: t, Message: fmt.Sprintf("e%d", t)}
 			}
+			if c.Lim != nil {
+				crashAtFileSize(*c.Lim) // a write that creates a partition: the process dies inside the tag-index save
+			}
 			err := srvWrite(ctx, srv, c.Tags, evs)
 			out.Encode(ans(err))
 		case "sync":
@@ -161,7 +165,7 @@ func serveMain(args []string) {
 			//      wakes up and forwards it;
 			//   2. write Ts to the source (acknowledged, stays buffered): a worker that does not run is started by the
 			//      notification and forwards what step 1 made readable;
-			//   3. wait until the destination holds as many events as the source had flushed after step 1 (only the
+			//   3. wait until the destination holds as many events as the source had flushed after step 1, less Skip (only the
 			//      destination is flushed meanwhile) and the pipe's
 			//      progress file was rewritten since step 1 (the worker is past the position query of this round).
 			t0 := time.Now()
@@ -186,6 +190,7 @@ func serveMain(args []string) {
 				deadline = time.Duration(c.N) * time.Millisecond
 			}
 			var got []int64
+			var complete time.Time
 			done := WaitFor(deadline, func() bool {
 				if pi, err := srv.Partitions.GetParitionInfo(c.Dest); err == nil {
 					if j, err := srv.JCtrl.(journal.Controller).GetOrCreate(ctx, pi.JournalId); err == nil {
@@ -193,8 +198,17 @@ func serveMain(args []string) {
 					}
 				}
 				got, _ = readAll(ctx, srv, c.Dest, nil)
-				if len(got) >= len(have) && statOf(pf) != before {
-					return true
+				if len(got) >= len(have)-c.Skip {
+					if statOf(pf) != before {
+						return true
+					}
+					// the save follows the write to the destination at once; a pipe that does not rewrite its progress
+					// file is not waited for longer than this
+					if complete.IsZero() {
+						complete = time.Now()
+					} else if time.Since(complete) > 10*time.Second {
+						return true
+					}
 				}
 				time.Sleep(5 * time.Millisecond)
 				return false
